@@ -34,7 +34,7 @@ func init() {
 	fw.Register(&fw.Prop{
 		ID:    "C07",
 		Level: "exploration",
-		Rule: "cases = rounds, under the Go race detector, of 8-24 connections alive at once in one process (roles and permessage-deflate agreements mixed), each exchanging provenance-tagged messages with its own raw peer while a chaos behaviour is applied to it: reading again after end-of-message, abandoning a message half read and closing, protocol error mid-message, local Close / CloseNow / context expiry in the middle of a compressed message, peer Close frame between the fragments of a compressed message, BFINAL-terminated messages, close while a compressed write is blocked, close (CloseNow / Close / context expiry) under a reader blocked in a transport read that lingers after the close, wsjson reads/writes; each closed connection is followed at once by a successor that reuses the pools, first receives hostile 'dictionary probe' messages (DEFLATE streams whose back-references reach before their own start) and then exchanges tagged data. " +
+		Rule: "cases = rounds, under the Go race detector, of 8-24 connections alive at once in one process (roles and permessage-deflate agreements mixed), each exchanging provenance-tagged messages with its own raw peer while a chaos behaviour is applied to it: reading again after end-of-message, abandoning a message half read and closing, protocol error mid-message, local Close / CloseNow / context expiry in the middle of a compressed message, peer Close frame between the fragments of a compressed message, BFINAL-terminated messages, close while a compressed write is blocked, the peer vanishing while compressed messages are streamed (a message writer's Close fails, then the connection is closed), close (CloseNow / Close / context expiry) under a reader blocked in a transport read that lingers after the close, wsjson reads/writes; each closed connection is followed at once by a successor that reuses the pools, first receives hostile 'dictionary probe' messages (DEFLATE streams whose back-references reach before their own start) and then exchanges tagged data. " +
 			"Oracles: (1) provenance - every 16 byte granule of every payload is (connection id, message id, offset), so whatever a read returns is checked granule by granule against that connection's own stream and a foreign granule names the connection it leaked from; (2) pool monitor on the verif get/put/in-use hooks: an object put twice, put while one of its methods is executing on the putting goroutine's stack, put while another goroutine is registered inside Read/Write/writeFrame with it, or a connection's bufio.Reader put while a Read of the transport it wraps is still executing; (3) race detector reports. " +
 			"distinct key = (behaviour, role, agreement, outcome class)",
 		Gen:         c07Gen,
@@ -273,7 +273,7 @@ var c07Behaviours = []string{
 	"plain", "read-after-eof", "abandon-half-read+Close", "abandon-half-read+CloseNow", "protocol-error-mid-message",
 	"local-Close-mid-compressed", "local-CloseNow-mid-compressed", "ctx-expiry-mid-compressed", "peer-close-between-fragments",
 	"bfinal-messages", "close-while-compressed-write-blocked", "wsjson", "read-after-eof-then-others-read",
-	"reader-call-mid-message", "close-under-blocked-reader",
+	"reader-call-mid-message", "close-under-blocked-reader", "peer-vanishes-during-compressed-writes",
 }
 
 func c07Gen(tier string, seed int64) []fw.Case {
@@ -417,7 +417,7 @@ func c07Conn(r *fw.R, beh string, role Role, p wire.Params, seed uint64, success
 	tStart := time.Now()
 	defer func() {
 		r.Key("%s/%s/%s/successor=%v/%s", beh, role, paramsKey(p), successor, outcome)
-		if el := time.Since(tStart); el > 20*time.Second {
+		if el := time.Since(tStart); el > 45*time.Second {
 			r.Inconclusivef("connection %d (%s, %s, %s) took %v: the harness waited on something that did not happen", k, beh, role, paramsKey(p), el.Round(time.Second))
 		}
 	}()
@@ -587,6 +587,41 @@ func c07Conn(r *fw.R, beh string, role Role, p wire.Params, seed uint64, success
 		<-done
 		rc()
 		outcome = []string{"CloseNow", "Close", "context-expiry"}[how]
+		return
+	case "peer-vanishes-during-compressed-writes":
+		// the peer resets the transport while compressed messages are being streamed: a Write or the Close of a
+		// message writer fails part-way (possibly at the final frame); then the application closes the connection
+		done := make(chan struct{})
+		wrng := fw.NewRand(seed ^ 0x77)
+		go func() {
+			defer close(done)
+			for m := uint32(0); m < 200; m++ {
+				w, err := c.Writer(ctx, websocket.MessageBinary)
+				if err != nil {
+					return
+				}
+				pl := provPayload(k, 700+m, 300+wrng.Intn(3000))
+				if _, err := w.Write(pl[:len(pl)/2]); err != nil {
+					return
+				}
+				if _, err := w.Write(pl[len(pl)/2:]); err != nil {
+					return
+				}
+				if err := w.Close(); err != nil {
+					return
+				}
+			}
+		}()
+		time.Sleep(time.Duration(200+rng.Intn(2000)) * time.Microsecond)
+		peerEnd.Reset()
+		<-done
+		r.Count("closes_mid_compressed_message", 1)
+		r.Count("writers_that_failed_when_the_peer_vanished", 1)
+		if rng.Bool() {
+			c.Close(websocket.StatusNormalClosure, "")
+		} else {
+			c.CloseNow()
+		}
 		return
 	case "close-while-compressed-write-blocked":
 		// nobody reads: a compressed write blocks in the transport, then the connection is closed under it
